@@ -135,6 +135,7 @@ pub struct Stats {
     /// runs that returned no bytes (panic / Err): the property's oracle cannot judge them (C09's business)
     pub no_output_runs: u64,
     pub fringe_states: u64,
+    pub unselectable_choices: u64,
     pub fringe_transitions: u64,
     pub first_no_output: Option<String>,
 }
@@ -160,6 +161,7 @@ impl Stats {
         self.machinery_errors.extend(o.machinery_errors.iter().cloned());
         self.no_output_runs += o.no_output_runs;
         self.fringe_states += o.fringe_states;
+        self.unselectable_choices += o.unselectable_choices;
         self.fringe_transitions += o.fringe_transitions;
         if self.first_no_output.is_none() {
             self.first_no_output = o.first_no_output.clone();
@@ -285,6 +287,8 @@ pub struct Explorer<'a> {
     pub opts: Opts,
     pub monitor: &'a MonitorFn<'a>,
     pub xval_full: std::sync::atomic::AtomicBool,
+    /// set once the opcode choice turned out not to be a single uniform index draw
+    pub choice_discovery: std::sync::atomic::AtomicBool,
 }
 
 impl<'a> Explorer<'a> {
@@ -510,33 +514,93 @@ impl<'a> Explorer<'a> {
     }
 
     fn expand(&self, rep: &Rep, only_consumers: bool) -> Expansion {
-        let mut exp = Expansion::default();
-        let n = rep.enabled.len() as u64;
-        for i in 0..n {
-            if only_consumers && !is_consumer(rep.enabled[i as usize]) {
-                continue;
+        use std::sync::atomic::Ordering;
+        if !self.choice_discovery.load(Ordering::Relaxed) {
+            // fast path: the opcode is picked by one uniform draw among the enabled ones (checked on every run)
+            let mut exp = Expansion::default();
+            let n = rep.enabled.len() as u64;
+            let mut diverged = false;
+            for i in 0..n {
+                if only_consumers && !is_consumer(rep.enabled[i as usize]) {
+                    continue;
+                }
+                let mut s = rep.script.clone();
+                s.extend_from_slice(&script::enc_index(i, n));
+                let k = rep.k + 1;
+                let Some((tr, succ)) = self.process(&s, k, &mut exp, false) else { continue };
+                let chosen = tr.steps.last().and_then(|st| st.chosen);
+                if tr.steps.len() == k && chosen != Some(rep.enabled[i as usize]) {
+                    // the selection mechanism is not "index i of the enabled list": learn it by enumeration instead
+                    diverged = true;
+                    break;
+                }
+                *exp.stats.op_transitions.entry(rep.enabled[i as usize]).or_default() += 1;
+                if let Some(su) = succ {
+                    exp.succs.push(su);
+                }
+                self.deviate(&s, k, &tr, 0, self.opts.dev_budget, &mut exp);
             }
-            let mut s = rep.script.clone();
-            s.extend_from_slice(&script::enc_index(i, n));
-            let k = rep.k + 1;
-            let Some((tr, succ)) = self.process(&s, k, &mut exp, false) else { continue };
-            // the intended opcode must have been chosen
-            let chosen = tr.steps.last().and_then(|st| st.chosen);
-            if tr.steps.len() == k && chosen != Some(rep.enabled[i as usize]) {
-                exp.stats.machinery_errors.push(format!(
-                    "choice divergence: wanted {:02x} got {:?} script {} k={k}",
-                    rep.enabled[i as usize],
-                    chosen,
-                    lexer::hex(&s)
-                ));
-                continue;
+            if !diverged {
+                return exp;
             }
-            *exp.stats.op_transitions.entry(rep.enabled[i as usize]).or_default() += 1;
-            if let Some(su) = succ {
-                exp.succs.push(su);
-            }
-            self.deviate(&s, k, &tr, 0, self.opts.dev_budget, &mut exp);
+            self.choice_discovery.store(true, Ordering::Relaxed);
         }
+        self.expand_by_discovery(rep, only_consumers)
+    }
+
+    /// Fallback when the opcode choice is not a single uniform index draw (e.g. a weighted selection): enumerate the
+    /// answers of the draws made between StepBegin and Chosen and keep, per enabled opcode, the first script that
+    /// selects it. Enabled opcodes that no enumerated answer selects are reported (`unselectable_choices`).
+    fn expand_by_discovery(&self, rep: &Rep, only_consumers: bool) -> Expansion {
+        let mut exp = Expansion::default();
+        let k = rep.k + 1;
+        let mut done: HashSet<u8> = HashSet::new();
+        let mut queue: std::collections::VecDeque<(Vec<u8>, usize)> = std::collections::VecDeque::new();
+        let mut tried: HashSet<Vec<u8>> = HashSet::new();
+        queue.push_back((rep.script.clone(), 0));
+        let mut runs = 0usize;
+        while let Some((s, from)) = queue.pop_front() {
+            if !tried.insert(s.clone()) || runs >= 4096 || done.len() == rep.enabled.len() {
+                continue;
+            }
+            runs += 1;
+            let Some((tr, succ)) = self.process(&s, k, &mut exp, false) else { continue };
+            let Some(st) = tr.steps.last() else { continue };
+            if tr.steps.len() != k {
+                continue;
+            }
+            if let Some(c) = st.chosen {
+                if rep.enabled.contains(&c) && done.insert(c) && !(only_consumers && !is_consumer(c)) {
+                    *exp.stats.op_transitions.entry(c).or_default() += 1;
+                    if let Some(su) = succ {
+                        exp.succs.push(su);
+                    }
+                    self.deviate(&s, k, &tr, 0, self.opts.dev_budget, &mut exp);
+                }
+            }
+            let cds: Vec<DrawRec> = st.draws.iter().filter(|d| d.is_choice).cloned().collect();
+            for (ci, d) in cds.iter().enumerate().skip(from) {
+                let span = match d.method {
+                    "choose_index" => d.a,
+                    "gen_range" => d.b.saturating_sub(d.a),
+                    _ => 0,
+                };
+                let alts: Vec<Vec<u8>> = if d.method == "gen_bool" {
+                    vec![vec![0], vec![1]]
+                } else if (2..=512).contains(&span) {
+                    (0..span).map(|v| script::enc_index(v, span)).collect()
+                } else {
+                    script::alternatives(d).into_iter().map(|(b, _)| b).collect()
+                };
+                for bytes in alts {
+                    let mut s2: Vec<u8> = s[..d.off.min(s.len())].to_vec();
+                    s2.resize(d.off, 0);
+                    s2.extend_from_slice(&bytes);
+                    queue.push_back((s2, ci + 1));
+                }
+            }
+        }
+        exp.stats.unselectable_choices += (rep.enabled.len() - done.len()) as u64;
         exp
     }
 
@@ -746,10 +810,49 @@ pub fn scenario(ex: &Explorer, frame: bool, plan: &[Vec<u8>]) -> Result<Rep, Str
             .iter()
             .find_map(|w| enabled.iter().position(|c| c == w).map(|i| (i, *w)))
             .ok_or_else(|| format!("scenario: none of {:?} enabled at step {k}", wants.iter().map(|w| lexer::name(*w)).collect::<Vec<_>>()))?;
+        let base_len = script.len();
         script.extend_from_slice(&script::enc_index(idx as u64, enabled.len() as u64));
-        let (_c, _r, tr) = ex.run(&script, k + 1);
+        let (_c, _r, mut tr) = ex.run(&script, k + 1);
         if tr.steps.len() != k + 1 || tr.steps.last().and_then(|s| s.chosen) != Some(want) {
-            return Err(format!("scenario: step {k} did not choose {}", lexer::name(want)));
+            // the selection is not "index of the enabled list": enumerate the answers of the choice draws (two levels)
+            script.truncate(base_len);
+            let mut found = false;
+            let mut queue: std::collections::VecDeque<(Vec<u8>, usize)> = std::collections::VecDeque::new();
+            queue.push_back((script.clone(), 0));
+            let mut runs = 0;
+            while let Some((s, from)) = queue.pop_front() {
+                runs += 1;
+                if runs > 4096 {
+                    break;
+                }
+                let (_c, _r, t) = ex.run(&s, k + 1);
+                let Some(st) = t.steps.last() else { continue };
+                if t.steps.len() == k + 1 && st.chosen == Some(want) {
+                    script = s;
+                    tr = t;
+                    found = true;
+                    break;
+                }
+                let cds: Vec<DrawRec> = st.draws.iter().filter(|d| d.is_choice).cloned().collect();
+                for (ci, d) in cds.iter().enumerate().skip(from) {
+                    let span = match d.method {
+                        "choose_index" => d.a,
+                        "gen_range" => d.b.saturating_sub(d.a),
+                        "gen_bool" => 2,
+                        _ => 0,
+                    };
+                    for v in 0..span.min(512) {
+                        let bytes = if d.method == "gen_bool" { vec![v as u8] } else { script::enc_index(v, span) };
+                        let mut s2: Vec<u8> = s[..d.off.min(s.len())].to_vec();
+                        s2.resize(d.off, 0);
+                        s2.extend_from_slice(&bytes);
+                        queue.push_back((s2, ci + 1));
+                    }
+                }
+            }
+            if !found {
+                return Err(format!("scenario: step {k} could not be steered to {}", lexer::name(want)));
+            }
         }
         script.resize(tr.consumed, 0);
         enabled = tr.loop_end.as_ref().map(|x| x.0.clone()).ok_or("no LoopEnd")?;
